@@ -27,7 +27,7 @@ def unhexStr (s : String) : String := match Bytes.ofHex s with
 
 /-- canonical float for obs lines -/
 def canon (b : F64.Bits) : String :=
-  if F64.isNaN b then F64.toHex F64.nan else if F64.isZero b then F64.toHex F64.posZero else F64.toHex b
+  if F64.isNaN b then F64.toHex F64.nan else F64.toHex b
 
 def showList (l : List F64.Bits) : String := if l.isEmpty then "-" else ",".intercalate (l.map F64.toHex)
 
@@ -76,7 +76,8 @@ def handleSum (l : Line) : IO Unit := do
   let impl : Spec.MathSpec.ImplSummary :=
     { center := bitsD l "ic", lo := bitsD l "ilo", hi := bitsD l "ihi", conf := bitsD l "iconf",
       warn := l.getD "iwarn" != "-", warnText := l.getD "iwarn", pct := unhexStr (l.getD "ipct"),
-      wn := (l.nat? "wn").getD 0, wfin := l.getD "wfin" == "1", wprev := l.getD "wprev" == "1" }
+      wn := (l.nat? "wn").getD 0, wfin := l.getD "wfin" == "1", wprev := l.getD "wprev" == "1",
+      rev := l.getD "irev", alt := l.getD "ialt" }
   let v := match a with
     | "exact" => Spec.MathSpec.judgeExact vals impl
     | "nothing" => Spec.MathSpec.judgeNothing vals conf ((l.nat? "qlo").getD 0) ((l.nat? "qhi").getD 0) (needTab (l.getD "need")) impl
@@ -105,6 +106,8 @@ def handleCmp (l : Line) : IO Unit := do
     { p := bitsD l "ip", n1 := (l.nat? "in1").getD 0, n2 := (l.nat? "in2").getD 0, alpha := bitsD l "ialpha",
       p21 := bitsD l "ip21", psh := bitsD l "ipsh", psc := bitsD l "ipsc",
       delta := unhexStr (l.getD "idelta"), str := unhexStr (l.getD "istr"), warn := l.getD "iwarn" }
+  -- samples containing NaN are outside the property's quantifier: correspondence only
+  if l.getD "nan" == "1" then return
   let v := Spec.MathSpec.judgeCompare a (bitsList (l.getD "v1")) (bitsList (l.getD "v2")) (bitsD l "alpha") old new impl
     ((l.getD "k").toInt?.getD 0)
   IO.println s!"spec {id} {v}"
